@@ -32,7 +32,7 @@ EXPLANATION = ('C03: the loop thread and the firing threads are real threads run
                '"loop blocked in its untimed idle wait, queue non-empty, nobody else runnable".')
 ASSUMPTIONS = [
     'pre-emption at source-line granularity inside the traced functions (CPython switches threads between bytecodes; finer points inside one line are not explored)',
-    'threading.RLock gives mutual exclusion and re-entrancy; threading.Event.wait(10000) (the fall-back idle wait) never times out; timed waits return',
+    'threading.RLock gives mutual exclusion and re-entrancy; threading.Event.wait(t) never times out, whatever t (no timeout may be needed for a wake-up)',
     'fall-back generator only (no poller component registered)',
 ]
 OUTSIDE = ['more than P pre-emptions; randomised schedules (sampling is another technique)', 'pollers (their wake-up goes through a real pipe and select/poll/epoll)',
@@ -257,8 +257,7 @@ class SchedEvent:
         s = SchedEvent.sched
         if self.flag:
             return True
-        if timeout is not None and not (type(timeout) is int and timeout == 10000):
-            return self.flag          # a timed wait: time may pass
+        # a timed wait blocks as well: the statement is that no timeout has to expire for a fired event to be dispatched
         s.block(('event', self))
         return self.flag
 
@@ -274,7 +273,7 @@ class _NoAtexit:
         return None
 
 
-def make_harness(n_firers, events_per_firer, max_preempt, bound):
+def make_harness(n_firers, events_per_firer, max_preempt, bound, timer=False):
     # traced by function name (and file), so that a re-compiled variant of a function is traced as well
     codes = {getattr(f, '__func__', f).__code__.co_name for f in TRACED}
 
@@ -301,6 +300,12 @@ def make_harness(n_firers, events_per_firer, max_preempt, bound):
             @handler('ping')
             def on_ping(self, who, n):
                 log.append((who, n))
+
+            if timer:
+                # what a Timer does in every idle round: ask to be woken after a finite time
+                @handler('generate_events', priority=10)
+                def on_generate_events(self, event):
+                    event.reduce_time_left(50)
 
         app = App()
         fired = {}
@@ -339,7 +344,7 @@ def make_harness(n_firers, events_per_firer, max_preempt, bound):
         if res == 'stuck':
             loop_t = sched.threads[0]
             if loop_t.state != 'done' and loop_t.state[0] == 'event' and len(app._queue) > 0:
-                g.fail('lost-wakeup', w, 'the loop is blocked in its untimed idle wait while %d event(s) are queued and no thread can run; %s' % (len(app._queue), detail))
+                g.fail('lost-wakeup', w, 'the loop is blocked in its idle wait while %d event(s) are queued and no thread can run; %s' % (len(app._queue), detail))
             else:
                 g.fail('deadlock', w, detail)
             raise PathEnd()
@@ -391,8 +396,13 @@ def parts(tier):
         return [
             Part('fallback', make_harness(1, 2, 2, 100), bounds={'firing_threads': 1, 'events_per_thread': 2, 'preemptions': 2, 'window_per_preemption': 'within 100 traced lines after a thread got the baton', 'granularity': 'source lines of %d traced functions' % len(TRACED)},
                  encoded=ENC, budget_s=90),
+            Part('fallback-with-timer', make_harness(1, 1, 2, 100, timer=True), bounds={'firing_threads': 1, 'events_per_thread': 1, 'preemptions': 2, 'window_per_preemption': 100,
+                                                                                    'timer': 'a handler bounds every idle wait to 50 s'},
+                 encoded=ENC, budget_s=90),
         ]
     return [
+        Part('fallback-with-timer', make_harness(1, 2, 2, 160, timer=True), bounds={'firing_threads': 1, 'events_per_thread': 2, 'preemptions': 2, 'window_per_preemption': 160,
+                                                                                'timer': 'a handler bounds every idle wait to 50 s'}, encoded=ENC, budget_s=1800),
         Part('fallback', make_harness(1, 2, 2, 160), bounds={'firing_threads': 1, 'events_per_thread': 2, 'preemptions': 2, 'window_per_preemption': 160}, encoded=ENC, budget_s=1800),
         Part('fallback-3-preemptions', make_harness(1, 1, 3, 45), bounds={'firing_threads': 1, 'events_per_thread': 1, 'preemptions': 3, 'window_per_preemption': 45}, encoded=ENC, budget_s=2400),
         Part('two-firers', make_harness(2, 1, 2, 70), bounds={'firing_threads': 2, 'events_per_thread': 1, 'preemptions': 2, 'window_per_preemption': 70}, encoded=ENC, budget_s=2400),
